@@ -80,6 +80,16 @@ CLAIMED = {
    text="Proof: is_aligned_to returns the same result under both implementations for every address and power-of-two alignment, hence every translated try_/panicking cast returns the same outcome under any two feature configurations (track_caller does not occur in any translated body); the marker-impl tables extracted from the macro-expanded source under none / alloc / alloc+align_offset+track_caller / all-stable-sound each subsume the previous one, and every row of each is sound (C04). Decided by the correspondence leg, not by a theorem (partial): 'every sound feature combination builds' - cargo check of every single feature, every pair with extern_crate_alloc, the named sets and seeded random subsets (thorough: all pairs); full castgrid transcripts under both alignment tests (and track_caller in the thorough tier) and allocgrid transcripts with and without alloc_uninit are identical line for line; for every census type the markers under the smaller set are implied by those under the larger.",
    note="Partial: buildability is a fact about rustc and the whole crate and is explored (not all 2^20 subsets), not proved. nightly_* features and unsound_ptr_pod_impl are outside the property. Trusted: as C02/C04.",
    ref="5/C20"),
+ "C05": dict(
+   technique="Coq theorems over a hand-written model of the derive decision for structs/unions (incl. the meaning of the emitted compile-time assertions) and of the reference's repr(C) layout: soundness w.r.t. each trait's contract, completeness w.r.t. the documented requirements, padding <-> size arithmetic for all field lists; correspondence with real rustc verdicts and layouts on a generated family",
+   text="Proof: for every definition description (any number of fields, any sizes/alignments/marker facts, any merged repr, generics, unions) whatever derive(Pod/NoUninit/AnyBitPattern/Zeroable/TransparentWrapper) accepts and rustc lays out by the reference's rules meets the trait's contract (defined layout, size = sum of field sizes i.e. no padding, every field qualifying, single wrapped field with 1-aligned zero-sized Zeroable extras) - under the proviso that the type's name does not capture the padding assertion's helper type; without it the statement is refuted by a witness (the genuine defect, known_findings.json); whatever meets the documented requirements is accepted; a repr(C) struct is never smaller than the sum of its fields and equal size means every field starts where the previous ended; fully packed structs have no padding. Tie (the model is hand-written, correspondence is the only tie): a seeded family of definitions (fixed corpus first: the known shape, macro-internal names, split/reordered repr attributes, packed(N), align(N), named/tuple/unit/union, type/const/lifetime generics, 24 leaf types) x 5 derives (+ #[transparent(T)] variants), each compiled by the real rustc with the real macro; verdicts compared exactly with the model, accepted ones judged against the contract on the COMPILER's size_of, layout model compared with size_of/align_of/offset_of!.",
+   note="Partial: tie is correspondence only (sampled family; ~1900 verdicts quick). Trusted: leaf facts table of the generator (consistent with the C04 census), rustc, cargo diagnostics-to-module attribution. Definitions rustc itself rejects are outside the family.",
+   ref="5/C05"),
+ "C19": dict(
+   technique="Coq theorems (thin) over the address arithmetic of offset_of! and the repr(C) layout model (every field lies inside the struct); correspondence: both macro forms vs core::mem::offset_of! for every field of every struct of the family, and compile verdicts for Deref-reached and under-aligned packed fields",
+   text="Proof (thin): with the field at base + off and its extent inside the struct, checked_sub succeeds, the sanity assertion holds and both forms return off; every field of a repr(C) layout (any packing/alignment) lies inside the struct. The two static refusals are rustc's rules. Tie: for every struct of the C05 family (named and tuple, every repr) and every field, a module evaluates bytemuck::offset_of!(T, f), offset_of!(instance, T, f) (under catch_unwind) and core::mem::offset_of!(T, f): all three must agree; modules for packed structs with a field aligned above the packing, and for fields reachable only through Deref (struct, tuple, boxed target; both forms), must fail to compile.",
+   note="Partial: theorems are thin; the correspondence carries the assurance. rustc's E0793 / field-pattern rules are trusted.",
+   ref="5/C19"),
 }
 
 checks = []
